@@ -39,7 +39,17 @@ type readerRes struct {
 	err error
 }
 
+// inputArena is the one input buffer every call of a history reads from: a caller that refills
+// the same buffer with the next document. State that keeps slices of an earlier input (instead
+// of copies) then sees the next document's bytes.
+var inputArena = make([]byte, 1<<20)
+
 func (o readerOp) apply(vr *rjson.ValueReader) (res readerRes) {
+	doc := o.doc
+	if len(doc) <= len(inputArena) {
+		copy(inputArena, doc)
+		doc = inputArena[:len(o.doc):len(o.doc)]
+	}
 	n := 0
 	switch o.miss {
 	case "hit":
@@ -58,15 +68,15 @@ func (o readerOp) apply(vr *rjson.ValueReader) (res readerRes) {
 	defer func() { vsync.Chooser = nil }()
 	switch o.fn {
 	case "ReadValue":
-		res.v, res.p, res.err = vr.ReadValue(o.doc)
+		res.v, res.p, res.err = vr.ReadValue(doc)
 	case "ReadObject":
-		m, p, err := vr.ReadObject(o.doc)
+		m, p, err := vr.ReadObject(doc)
 		if m != nil {
 			res.v = m
 		}
 		res.p, res.err = p, err
 	case "ReadArray":
-		a, p, err := vr.ReadArray(o.doc)
+		a, p, err := vr.ReadArray(doc)
 		if a != nil {
 			res.v = a
 		}
@@ -130,9 +140,23 @@ func readerDocs(thorough bool) map[string][]byte {
 		"objs":     []byte(`{"a":{"b":1},"` + U("0061") + `":2}`),
 		"strs":     []byte(`["` + "\\" + `n","x"]`),
 		// keys that are each other's (un)escaped forms: raw a\\n unescapes to a\n, whose raw form unescapes to a<LF>
-		"key-esc2":    []byte(`{"a` + "\\" + "\\" + `n":1,"` + "\\" + "\\" + U("0041") + `":1}`),
-		"key-esc1":    []byte(`{"a` + "\\" + `n":2,"` + U("0041") + `":2}`),
-		"key-raw":     []byte(`{"an":3,"A":3}`),
+		"key-esc2": []byte(`{"a` + "\\" + "\\" + `n":1,"` + "\\" + "\\" + U("0041") + `":1}`),
+		"key-esc1": []byte(`{"a` + "\\" + `n":2,"` + U("0041") + `":2}`),
+		"key-raw":  []byte(`{"an":3,"A":3}`),
+		// same layout, different text at the same offsets (refilled input buffer)
+		// failures after at least one complete member (half-built containers must not leak)
+		"objpartial":    []byte(`{"id":7,"name":`),
+		"arrobjpartial": []byte(`[{"id":7,"x":}]`),
+		"arrpartial":    []byte(`[[7,8,`),
+		"objsmall":      []byte(`{"name":"x"}`),
+		"arrobjsmall":   []byte(`[{"name":"x"}]`),
+		"layout-1":      []byte(`{"id":1,"name":"x","seq":"0001"}`),
+		"layout-2":      []byte(`{"no":2,"kind":"y","seq":"0002"}`),
+		"layout-3":      []byte(`["0001",{"ab":1,"xy":"one"}]`),
+		"layout-4":      []byte(`["0002",{"cd":2,"zw":"two"}]`),
+		// numbers on the multiprecision fallback (after a range error on the same reader)
+		"slowfloats":  []byte(`[9007199254740993.000000000000000000001,4503599627370497.5,1.00000000000000011102230246251565404236316680908203125]`),
+		"underflow":   []byte(`[1e-999,4.9406564584124654e-324]`),
 		"wide":        []byte(wide.String()),
 		"mixed":       []byte(`[{"a":[1,{"b":"x"}]},[{}],"s"]`),
 		"eof":         []byte(`[1,`),
@@ -295,6 +319,29 @@ func c15(r *eng.Run) {
 			break
 		}
 	}
+	// pumped histories: one cheap op repeated many times (leaked counters only show after many
+	// calls), then every cheap op
+	pumped := 0
+	for _, a := range cheap {
+		for _, K := range []int{40, r.Pick(0, 3000)} {
+			if K == 0 {
+				continue
+			}
+			hist := make([]int, K)
+			for i := range hist {
+				hist[i] = a
+			}
+			for _, b := range rv {
+				sys.Replay(hist, b)
+				pumped++
+			}
+		}
+		if r.TooMany() {
+			break
+		}
+	}
+	r.Set("pumped_histories", pumped)
+	st.Transitions += pumped
 	r.Set("histories_without_dedup", nPairs)
 	st.Transitions += nPairs
 	r.Set("states", st.States)
